@@ -1,3 +1,4 @@
+import glob
 import json
 import multiprocessing as mp
 import os
@@ -60,6 +61,21 @@ def run_property(pid, mod, tier, seed, jobs, only_facets=None, scale=1.0, write_
             tasks.append((fi, tier, seed, s, n_shards, known_sigs, scale))
     # longest facets first
     tasks.sort(key=lambda t: -mod.FACETS[t[0]].budget.get(tier, 0))
+    # committed regression replays (shrunk failures of earlier findings) run first, bypassing Hypothesis
+    regress_viol = []
+    n_regress = 0
+    for path in sorted(glob.glob(os.path.join(HERE, "replays", pid, "regress-*.json"))):
+        with open(path) as fh:
+            rec = json.load(fh)
+        fs = [f for f in mod.FACETS if f.name == rec["facet"]]
+        if not fs:
+            continue
+        n_regress += 1
+        tmp = core.ShardResult(rec["facet"])
+        try:
+            core.run_one(fs[0], rec["spec"], set(known_sigs), tmp)
+        except core.Violation as v:
+            regress_viol.append((rec["facet"], v.signature, {"message": v.message, "spec": rec["spec"]}, path))
     results = []
     if jobs <= 1 or len(tasks) == 1:
         for t in tasks:
@@ -106,6 +122,7 @@ def run_property(pid, mod, tier, seed, jobs, only_facets=None, scale=1.0, write_
                            "seed": seed, "tier": tier}, fh, indent=1, sort_keys=True)
             violations.append((name, sig, v, path))
 
+    violations.extend(regress_viol)
     vacuous = []
     for f in facets:
         m = per_facet.get(f.name)
@@ -118,7 +135,7 @@ def run_property(pid, mod, tier, seed, jobs, only_facets=None, scale=1.0, write_
     wall = time.time() - t0
     if write_evidence and not only_facets:
         try:
-            _write_evidence(pid, mod, tier, seed, per_facet, violations, known, wall)
+            _write_evidence(pid, mod, tier, seed, per_facet, violations, known, wall, n_regress)
         except Exception:
             traceback.print_exc()
             errors.append(("evidence", "could not write evidence"))
@@ -154,7 +171,7 @@ def run_property(pid, mod, tier, seed, jobs, only_facets=None, scale=1.0, write_
     return 0
 
 
-def _write_evidence(pid, mod, tier, seed, per_facet, violations, known, wall):
+def _write_evidence(pid, mod, tier, seed, per_facet, violations, known, wall, n_regress):
     samples = []
     for name, m in sorted(per_facet.items()):
         for s in m["samples"][:2]:
@@ -185,6 +202,7 @@ def _write_evidence(pid, mod, tier, seed, per_facet, violations, known, wall):
                            for e in known if e.get("status") == "known"},
         "exhaustive": bool(per_facet) and all(m["exhaustive"] for m in per_facet.values()),
         "violation_signatures": [f"{n}:{s}" for n, s, _, _ in violations],
+        "regression_replays_run": n_regress,
     }
     ev = {
         "property_id": pid,
